@@ -48,6 +48,9 @@ type c02Plan struct {
 	Source   int      // 0 honest oracle, 1 lying oracle, 2 real ValidationOracle + honest RPC, 3 + lying RPC, 4 + undecodable RPC, 5 + RPC serving forged historical summaries
 	Garble   int      // source 4: which kind of undecodable answer
 	Muts     []c02Mut
+	// history on the same (long-lived) validator before the judged call:
+	Prelude   bool // first validate the unmutated content of the block the content was taken from, under its own key
+	FailFirst bool // then validate the judged item once while the header lookup fails
 }
 
 var c02BodyMuts = []string{"tx-drop", "tx-dup", "tx-swap", "tx-byte", "tx-other", "uncles-drop", "uncles-add", "uncles-byte", "uncles-other",
@@ -149,6 +152,8 @@ func genC02(t *rapid.T) c02Plan {
 			V:    rapid.Uint64().Draw(t, "mv"),
 		})
 	}
+	p.Prelude = rapid.IntRange(0, 2).Draw(t, "prelude") == 0
+	p.FailFirst = rapid.IntRange(0, 2).Draw(t, "failFirst") == 0
 	return p
 }
 
@@ -620,7 +625,31 @@ func runC02(p c02Plan, c *stats.Case) error {
 
 	want, reason := c02Reference(cs.key, cs.content, refHeader, g.acc)
 
-	validator := history.NewHistoryValidator(oracle)
+	fo := &flakyOracle{inner: oracle}
+	validator := history.NewHistoryValidator(fo)
+	if p.Prelude && p.ContKind != 0 {
+		// the honest (key, content) pair of the block the content comes from
+		hk := src.hashKey(byte(p.ContKind))
+		hc := src.Body
+		if p.ContKind == 2 {
+			hc = src.Receipts
+		}
+		_, _ = call(func() error { return validator.ValidateContent(append([]byte{}, hk...), append([]byte{}, hc...)) })
+		c.Class("history:prelude")
+	}
+	if p.FailFirst && p.ContKind != 0 {
+		fo.failNext = true
+		ferr, _ := call(func() error {
+			return validator.ValidateContent(append([]byte{}, cs.key...), append([]byte{}, cs.content...))
+		})
+		if ferr != nil {
+			c.Class("history:failed-lookup-first")
+		}
+		fo.failNext = false
+	}
+	if p.Prelude && p.FailFirst && p.ContKind != 0 && (p.Cross || len(p.Muts) > 0) {
+		c.NT("history:prelude+failed-lookup-then-judged")
+	}
 	verr, pan := call(func() error {
 		return validator.ValidateContent(append([]byte{}, cs.key...), append([]byte{}, cs.content...))
 	})
